@@ -427,6 +427,34 @@ def cases(draw, tier="quick", formats=("json", "json", "json", "yaml", "ini")):
         specs[0]["files"][0] = {"as_list": True, "samples": [{"first": o1, "second": o2}]}
         o["merge"] = [["percent", 100 * shared / total if (100 * shared) % total else 100 * shared // total]]
         o["dkr"], o["dkf"] = [], []
+    if fmt != "ini" and draw(st.integers(0, 9)) == 0:
+        # string constants right at the documented limits (15 distinct values, --max-strings-literals just above the count):
+        # the option's value has to reach the code generator as it was given
+        specs[0]["files"][0] = {"as_list": True, "samples": draw(gen.literal_boundary_samples(universe))}
+        o["max_literals"] = draw(st.sampled_from([14, 15, 16, 16, 17, 20, 100]))
+        if o["fw"] == "attrs":
+            o["fw"] = "dataclasses"
+        o["dkr"], o["dkf"] = [], []
+    if fmt != "ini" and draw(st.integers(0, 7)) == 0:
+        # three root models whose similarity to the *union* of the two others differs from the similarity to each of them:
+        # merging once over the original key sets (documented pipeline) differs from any incremental merge per model
+        def obj(ks):
+            return {k: 1 for k in ks}
+        if draw(st.booleans()):
+            o["merge"] = [["number", 3]]
+            sets = [list("xyzpq"), list("xyzrs"), list("pqrs")]
+        else:
+            o["merge"] = [["percent", 70]]
+            base = ["k%02d" % i for i in range(10)]
+            # A ~ B (10/14) and A ~ C (8/10), but C against A|B is 8/14
+            sets = [base, base + ["m%d" % i for i in range(4)], base[:8]]
+            if draw(st.booleans()):
+                sets = [sets[1], sets[0], sets[2]]
+        if draw(st.booleans()):
+            sets.reverse()
+        specs = [{"model": nm, "via": "m", "lookup": [], "files": [{"as_list": draw(st.booleans()), "samples": [obj(ks)]}]}
+                 for nm, ks in zip(["Alpha", "Beta", "Gamma"], sets)]
+        o["dkr"], o["dkf"], o["nested"] = [], [], False
     return {"specs": specs, "opts": o, "format": fmt, "output": draw(st.sampled_from([False, False, True])),
             "c_locale": draw(st.booleans()), "run_twice": draw(st.sampled_from([False, False, True])),
             "prior_failed_parse": draw(st.sampled_from([False, False, False, True])),
